@@ -57,10 +57,150 @@ pub fn test_dec(c: &DecCase) -> Verdict {
     Verdict::pass(true).label(if capped { "dec: too many pairs" } else if new.0.is_ok() { "dec: ok" } else { "dec: other error" })
 }
 
+/// (b) programs in allocators close to their caps; the three counts are sampled before and after every operator call
+#[derive(Serialize, Deserialize, Clone, Debug)]
+pub struct ProgCapCase {
+    pub c: crate::checks::progcase::ProgCase,
+    /// distance of the pre-loaded allocator from each cap, relative to the peak the program reaches when unconstrained
+    /// (peak + slack, slack may be negative)
+    pub atom_slack: i32,
+    pub pair_slack: i32,
+    pub heap_slack: i32,
+}
+
+struct Sampler {
+    inner: clvmr::chia_dialect::ChiaDialect,
+    peak: std::cell::Cell<(usize, usize, usize)>,
+}
+
+impl Sampler {
+    fn sample(&self, a: &Allocator) {
+        let p = self.peak.get();
+        self.peak.set((p.0.max(a.atom_count()), p.1.max(a.pair_count()), p.2.max(a.heap_size())));
+    }
+}
+
+impl clvmr::dialect::Dialect for Sampler {
+    fn quote_kw(&self) -> u32 {
+        self.inner.quote_kw()
+    }
+    fn apply_kw(&self) -> u32 {
+        self.inner.apply_kw()
+    }
+    fn softfork_kw(&self) -> u32 {
+        self.inner.softfork_kw()
+    }
+    fn softfork_extension(&self, ext: u32) -> clvmr::dialect::OperatorSet {
+        self.inner.softfork_extension(ext)
+    }
+    fn flags(&self) -> clvmr::chia_dialect::ClvmFlags {
+        self.inner.flags()
+    }
+    fn gc_candidate(&self, a: &Allocator, op: clvmr::NodePtr) -> bool {
+        self.inner.gc_candidate(a, op)
+    }
+    fn op(&self, a: &mut Allocator, op: clvmr::NodePtr, args: clvmr::NodePtr, max_cost: u64, ext: clvmr::dialect::OperatorSet) -> clvmr::reduction::Response {
+        self.sample(a);
+        let r = self.inner.op(a, op, args, max_cost, ext);
+        self.sample(a);
+        r
+    }
+    fn allow_unknown_ops(&self) -> bool {
+        self.inner.allow_unknown_ops()
+    }
+}
+
+pub fn test_prog_cap(c: &ProgCapCase) -> Verdict {
+    use crate::checks::alloc_sm::MAX_ATOMS;
+    use crate::util::{Out, to_out};
+    let pc = &c.c;
+    if !pc.p.prog.is_valid() || !pc.p.env.is_valid() {
+        return Verdict::discard();
+    }
+    let budget = if crate::checks::progcase::safe_unlimited(&pc.p) { 0 } else { crate::checks::progcase::BIG_BUDGET / 4 };
+    let mut i = Interner::new();
+    // 1. unconstrained twin: outcome and sampled peaks
+    let mut a = Allocator::new();
+    let (Ok(p), Ok(e)) = (build(&mut a, &pc.p.prog), build(&mut a, &pc.p.env)) else { return Verdict::discard() };
+    let d = Sampler { inner: clvmr::chia_dialect::ChiaDialect::new(crate::util::flags(pc.flags)), peak: Default::default() };
+    d.sample(&a);
+    let r = guard(|| clvmr::run_program::run_program(&mut a, &d, p, e, budget));
+    d.sample(&a);
+    let roomy = to_out(&a, &mut i, r);
+    if let Out::Panic(m) = &roomy {
+        return Verdict::fail(format!("run_program panicked: {m}\n {}", crate::checks::progcase::show_case(pc)));
+    }
+    let peak = d.peak.get();
+    // 2. the same run in an allocator whose caps are `slack` away from those peaks
+    let room_atoms = (peak.0 as i64 + c.atom_slack as i64).max(2) as u64;
+    let room_pairs = (peak.1 as i64 + c.pair_slack as i64).max(0) as u64;
+    let limit = (peak.2 as i64 + c.heap_slack as i64).max(1) as usize;
+    let mut a = Allocator::new_limited(limit);
+    // the fresh allocator already holds 2 atoms (nil, one); pre-load the rest as ghosts
+    if a.add_ghost_atom((MAX_ATOMS - room_atoms) as usize).is_err() || a.add_ghost_pair((MAX_PAIRS - room_pairs) as usize).is_err() {
+        return Verdict::discard();
+    }
+    let (p, e) = match (build(&mut a, &pc.p.prog), build(&mut a, &pc.p.env)) {
+        (Ok(p), Ok(e)) => (p, e),
+        _ => return Verdict::pass(false).label("cap hit while building the program"),
+    };
+    let d = Sampler { inner: clvmr::chia_dialect::ChiaDialect::new(crate::util::flags(pc.flags)), peak: Default::default() };
+    d.sample(&a);
+    let r = guard(|| clvmr::run_program::run_program(&mut a, &d, p, e, budget));
+    d.sample(&a);
+    let capped = to_out(&a, &mut i, r);
+    let seen = d.peak.get();
+    let ctx = || format!("caps: atoms {MAX_ATOMS} pairs {MAX_PAIRS} heap {limit}; room left for (atoms, pairs) = ({room_atoms}, {room_pairs}); unconstrained peaks (atoms,pairs,heap) = {peak:?}\n {}", crate::checks::progcase::show_case(pc));
+    if let Out::Panic(m) = &capped {
+        return Verdict::fail(format!("run_program panicked near the caps: {m}\n {}", ctx()));
+    }
+    if seen.0 as u64 > MAX_ATOMS || seen.1 as u64 > MAX_PAIRS || seen.2 > limit {
+        return Verdict::fail(format!("a count exceeded its cap during the run: observed maxima (atoms,pairs,heap) = {seen:?}\n {}", ctx()));
+    }
+    let cap_err = matches!(&capped, Out::Err { kind, .. } if kind == "TooManyAtoms" || kind == "TooManyPairs" || kind == "OutOfMemory");
+    // the unconstrained run reached a count the capped allocator cannot hold: the capped run must have hit a cap
+    let must_fail = peak.0 as u64 > room_atoms || peak.1 as u64 > room_pairs || peak.2 > limit;
+    if must_fail && !cap_err {
+        return Verdict::fail(format!("the program needs more than the caps allow but the capped run did not fail on a cap: {}\n {}", capped.show(&i), ctx()));
+    }
+    // caps that are not hit are unobservable
+    if !cap_err && capped != roomy {
+        return Verdict::fail(format!("no cap was hit, yet the outcome differs from the unconstrained run: capped {} unconstrained {}\n {}", capped.show(&i), roomy.show(&i), ctx()));
+    }
+    let at_cap = seen.0 as u64 == MAX_ATOMS || seen.1 as u64 == MAX_PAIRS || seen.2 == limit;
+    let mut v = Verdict::pass(cap_err || at_cap);
+    v = v.label(if cap_err { format!("prog cap:{}", capped.kind()) } else if at_cap { "prog: reached a cap exactly".to_string() } else { "prog: below caps".to_string() });
+    if pc.flags & crate::util::F_ENABLE_GC != 0 {
+        v = v.label("prog: gc");
+    }
+    v
+}
+
+fn gen_prog_cap(t: &mut Tape) -> ProgCapCase {
+    let cfg = crate::r#gen::programs::ProgCfg { mutate_pct: 10, raw_pct: 2, reprs: true, env_big_pct: 40, max_depth: 5, ..Default::default() };
+    let mut c = crate::checks::progcase::gen_prog_case(t, &cfg);
+    if t.chance(1, 2) {
+        c.p = crate::checks::c04::gen_gc_shaped(t);
+    }
+    if t.chance(1, 2) {
+        c.flags |= crate::util::F_ENABLE_GC;
+    }
+    let slack = |t: &mut Tape, unit: i32| -> i32 {
+        match t.below(6) {
+            0 => 0,
+            1 => -1 - t.below(3) as i32,
+            2 => 1 + t.below(2) as i32,
+            3 => -(t.below(40) as i32) * unit,
+            _ => 1000 * unit,
+        }
+    };
+    ProgCapCase { c, atom_slack: slack(t, 1), pair_slack: slack(t, 1), heap_slack: slack(t, 16) }
+}
+
 pub fn run(r: &mut Runner) {
     r.rule = "part histories: allocator histories (as C12) started from allocators with heap limits 0..4096 and ghost counters pre-loaded to within 0..50 of the 62,500,000 caps; the reference accounting predicts per call success or the cap error, \
         a failed call must leave counts unchanged, and counts never exceed a cap. Non-trivial = at least one call failed on a cap and at least one succeeded ending exactly at a cap; distinct by history. \
-        part decoders: current vs legacy back-reference decoder in equally pre-loaded allocators (same acceptance, never above the cap). (Program mode: see part programs when built with the diag variant.)"
+        part decoders: current vs legacy back-reference decoder in equally pre-loaded allocators (same acceptance, never above the cap). part programs: generated programs (incl. the heap-reclamation shaped family, with and without ENABLE_GC) are first run unconstrained while a dialect wrapper samples the three counts before and after every operator call; the same program is then run in an allocator pre-loaded with ghost atoms/pairs and a heap limit placed 0, +-1..3 or up to 40 units around those peaks: no sampled count may exceed a cap, a program whose unconstrained peak exceeds a cap must fail with a cap error, and a run that hits no cap must equal the unconstrained run. Non-trivial = a cap error occurred or a count reached its cap exactly."
         .into();
     let n = r.n(150_000, 4_000_000);
     r.run_part(
@@ -102,6 +242,11 @@ pub fn run(r: &mut Runner) {
         },
         test_dec,
     );
+    let n = r.n(40_000, 1_000_000);
+    r.run_part("programs", n, 700, gen_prog_cap, test_prog_cap);
+    for l in ["prog cap:TooManyAtoms", "prog cap:TooManyPairs", "prog cap:OutOfMemory", "prog: reached a cap exactly", "prog: gc"] {
+        r.require_label(l, 50);
+    }
     for l in ["cap:TooManyAtoms", "cap:TooManyPairs", "cap:OutOfMemory", "ended exactly at a cap", "dec: too many pairs", "dec: ok"] {
         r.require_label(l, 100);
     }
